@@ -1235,6 +1235,7 @@ class DiskRefsContainer(RefsContainer):
         self._check_refname(name)
         self._check_refname(other)
         filename = self.refpath(name)
+        ensure_dir_exists(os.path.dirname(filename))
         f = GitFile(filename, "wb")
         try:
             f.write(SYMREF + other + b"\n")
